@@ -114,7 +114,8 @@ A = ["pathlib.Path replaced by an in-memory stand-in (dirs/files, fnmatch glob, 
      "values concretised to three picklable and JSON-representable samples (serialisation crosses a C boundary)",
      "node ids exclude '/' and NUL (path separators are outside 'node id')"]
 register(Job("C18", "history3_dots", make(3, 3, "ab.", True), tier="quick", budget_s=500,
-             parts=[{"op0": a, "op1": b} for a in range(2) for b in range(2)],
+             parts=[{"op0": a, "op1": b, "op2": c, "key0": d, "key1": e} for a in range(2) for b in range(2)
+                    for c in range(2) for d in range(2) for e in range(2)],
              goals=("second_save", "load_hit", "load_miss", "saved_pickle", "saved_json"),
              doc={"template": "history of 3 operations over 2 ids x 2 contexts x 2 formats",
                   "symbolic": ["id1, id2: strings 1..3 over {a, b, .}", "op_i in {save, load}", "key_i", "fmt_i", "ctx_i"],
